@@ -1,0 +1,12 @@
+//go:build verif
+
+// Contracts for the deductive checker in /verif (comment-only; compiled only with -tags verif).
+package ingest
+
+// insertBlock runs as numWorkers goroutines over the same Inserter: the two fields every worker updates are shared and
+// may only be written while holding i.mutex. (Only this lock discipline is under contract here; what the worker stores is
+// described by the assumed callers' view in /verif/spec/ingest.spec.)
+//@ func (*Inserter).insertBlock
+//@   props C16
+//@   frame-only
+//@   frame shared i.rowsCount, i.asyncBlocks guarded-by i.mutex
